@@ -43,6 +43,9 @@ def b64(b):
 def data_strategy(maxlen):
     return st.one_of(
         st.binary(max_size=12),
+        # long runs of one byte (a cleared or pre-set buffer)
+        st.tuples(st.sampled_from([0, 0xab, 0xff, 1]),
+                  st.integers(0, maxlen)).map(lambda t: bytes([t[0]]) * t[1]),
         st.integers(0, maxlen).map(lambda n: bytes((i * 11 + 1) & 0xff
                                                   for i in range(n))),
         st.binary(max_size=maxlen)).map(b64)
@@ -86,6 +89,10 @@ def strat_ops(draw, tier, faults):
                 st.integers(0, maxlen))),
                 value=draw(st.integers(0, 0xffffffff)),
                 aligned=draw(st.booleans()))
+            if not faults and draw(st.integers(0, 29)) == 0:
+                # a fill of a megabyte and a bit
+                op["n"] = (1 << 20) + 4 * draw(st.integers(0, 2048))
+                op["aligned"] = True
             if op["aligned"]:
                 op["addr"] -= op["addr"] % 4
                 op["n"] -= op["n"] % 4
@@ -448,7 +455,11 @@ def strat_structs(draw, tier):
                                               st.just(top)))
                                for _ in range(f["count"])]})
     return {"buffer": draw(st.sampled_from([32, 256])), "structs": structs,
-            "ops": ops}
+            "ops": ops,
+            # half way through, the controller is given new definitions of
+            # the same structs (as a boot with another struct file does): every
+            # field lies `relayout` bytes further on
+            "relayout": draw(st.sampled_from([0, 0, 4, 8]))}
 
 
 def struct_text(structs):
@@ -483,6 +494,17 @@ def check_structs(case):
         with sut("MachineController(structs=...)"):
             mc = MachineController("spinn-0-0", structs=defs)
         for i, op in enumerate(case["ops"]):
+            if case.get("relayout") and i == (len(case["ops"]) + 1) // 2:
+                import copy
+                moved = copy.deepcopy(case["structs"])
+                for s2 in moved:
+                    s2["size"] += case["relayout"]
+                    for g in s2["fields"]:
+                        g["offset"] += case["relayout"]
+                by_name = dict((s2["name"], s2) for s2 in moved)
+                with sut("replacing the struct definitions"):
+                    mc.structs = read_struct_file(
+                        stock + b"\n" + struct_text(moved).encode())
             s_ = by_name[op["struct"]]
             f = [g for g in s_["fields"] if g["name"] == op["field"]][0]
             fmt, size, top = PACKS[f["pack"]]
